@@ -458,8 +458,10 @@ func pickOp(r *rand.Rand, o *Obj, from []string) string {
 }
 
 // RandomHistory performs nops random calls on the session's object.
-// vlo..vhi is the value range; the bound is only ever set to 0 or to at least
-// the current size (DESIGN 3/C09).
+// vlo..vhi is the value range.  The bound is set at any time to any value:
+// off (0 or negative), exactly the size, above it, and BELOW it (one less,
+// about half, a small bound, 1) -- the types apply a lowered bound lazily, at
+// the next insertion of a new key (LinkedDict.tla, deviation LazyBound).
 func RandomHistory(r *rand.Rand, s *Session, pr Profile, nops int, vlo, vhi int) string {
 	o := s.O
 	n := o.N
@@ -519,15 +521,29 @@ func RandomHistory(r *rand.Rand, s *Session, pr Profile, nops int, vlo, vhi int)
 			op.Dir = Dirs[r.Intn(len(Dirs))]
 		case "n":
 			sz := size()
-			switch x := r.Intn(4); {
-			case pr.Grow && x > 0:
+			switch x := r.Intn(10); {
+			case pr.Grow && x > 2:
 				op.V = sz + n/2 + r.Intn(n) // far away: does not stop the growth
+			case pr.Grow && x == 2:
+				op.V = sz - r.Intn(2+sz/4) // a little below a large size: one insertion evicts a run of entries
 			case x == 0:
 				op.V = 0
 			case x == 1:
+				op.V = -1 - r.Intn(3) // negative: no bound either
+			case x == 2:
 				op.V = sz // exactly full (0 when empty = unbounded)
-			default:
+			case x <= 4:
 				op.V = sz + 1 + r.Intn(4)
+			case x == 5:
+				op.V = sz - 1 // just below the size (-1 when empty)
+			case x == 6:
+				op.V = 1 + sz/2 // about half
+			case x == 7:
+				op.V = 1 + r.Intn(sz+1) // anywhere in 1..size+1
+			case x == 8:
+				op.V = 1 + r.Intn(4) // a small bound, whatever the size
+			default:
+				op.V = sz + n/2 + r.Intn(n) // far above
 			}
 		case "nv":
 			op.V = []int{0, 0, -1, 5, 100}[r.Intn(5)]
@@ -674,8 +690,6 @@ func Explore(t *core.Trace, gen string, cas int, fresh func() *Obj, sc Scope, ad
 	}
 	enabled := func(nd *gnode, op Op) bool {
 		switch {
-		case op.Name == "SetMax":
-			return op.V == 0 || op.V >= len(nd.keys)
 		case adds[op.Name]:
 			for i, k := range nd.keys {
 				if k == op.K && nd.vals[i]+op.V > sc.MaxVal {
